@@ -149,17 +149,6 @@ theorem atom_stable {P : Prog} {e : Expr} {rest : List Expr} {n N : Nat} {ρ1 ρ
     · exact hfr n (Nat.le_refl _) (by omega) (by simp [namesList, bndList_sub_names rest _ hko])
     · have := tmpName_inj hm3; omega
 
-/-- a result that is the "no rule" failure -/
-def Stuck {α} : Res α → Prop
-  | .fail (.stuck _) _ => True
-  | _ => False
-
-@[simp] theorem Stuck_ok {α} (a : α) (w : World) : Stuck (Res.ok a w) = False := rfl
-@[simp] theorem Stuck_stuck {α} (s : String) (w : World) : Stuck (Res.fail (α := α) (.stuck s) w) = True := rfl
-theorem Stuck_fail_iff {α β} (f : Fail) (w w' : World) :
-    Stuck (Res.fail (α := α) f w) ↔ Stuck (Res.fail (α := β) f w') := by
-  cases f <;> simp [Stuck]
-
 /-- side conditions for `e` transformed from counter `n`, evaluated in an environment that may
     differ from the source environment on the names in `D`; all temporaries stay below `N` -/
 structure Hyp (D : List String) (e : Expr) (n N : Nat) : Prop where
